@@ -10,39 +10,6 @@ The hypotheses on a fitted rule (`Rule.Valid`) are NOT derived here from the fit
 `Model/Threshold.lean` does that); they are a decidable predicate (`Rule.valid`, see `valid_iff`) that the
 driver evaluates on every fitted model the harness produces.
 -/
-/-
-CLAUSE → THEOREM TABLE (review R1-B; property text in properties.jsonl, id C10)
-
-| clause of the property text                                            | theorem(s)                                                          |
-|------------------------------------------------------------------------|---------------------------------------------------------------------|
-| thresholder: row is a valid distribution (in [0,1], sums to 1)          | thresholder_pmf_range (hyp. Rule.Valid, decidable: valid_decides),   |
-|                                                                        | DERIVED for fitted models: fitted_rules_valid_simple/_EO,            |
-|                                                                        | fitted_pmf_is_distribution; slack form thresholder_pmf_range_slack   |
-| EG: row is a valid distribution                                         | eg_pmf_range, eg_pmf_row_is_distribution — HYPOTHESES weights ≥ 0,   |
-|                                                                        | Σ weights_ = 1, ids distinct, outputs in [0,1] (not derived from the |
-|                                                                        | fit; evaluated per fitted model by the harness); eg_pmf_range_slack; |
-|                                                                        | eg_pmf_range_needs_sum (the hypothesis is needed)                    |
-| EG: P(1) = weights_-weighted mixture of the stored predictors' outputs  | eg_pmf_is_mixture, eg_pmf_order_irrelevant                           |
-| thresholder: depends only on the row's score and group                  | pmf_depends_only_on_score_group, thresholder_selects_group,          |
-|                                                                        | thresholder_unseen_group                                             |
-| thresholder: without flip never decreases as the score increases        | pmf_monotone_noflip (+ flip=False ⇒ allGt derived: fitted_rules_*);  |
-|                                                                        | sharpness: flip_not_monotone                                         |
-| predict returns labels in {0,1}                                         | bernoulli_is_label, predict_rowwise                                  |
-| regression: the value of ONE stored predictor, chosen with its own      | choice_own_weight, choice_total, eg_regression_byid_own_weight,      |
-|  weight                                                                | eg_regression_own_weight (pairing LIFTED); _partial +                |
-|                                                                        | eg_regression_positional_counterexample for the old code (F7)        |
-| frequencies over independent seeds match the probabilities              | PARTIAL BY NATURE: bernoulli_iff / choice_own_weight give the set of |
-|                                                                        | draws u producing an outcome = an interval of length p; uniformity   |
-|                                                                        | of RandomState is TRUSTED; the harness tests frequencies             |
-| reproducible for a fixed random_state                                   | bernoulli_reproducible (trivial: the label is a FUNCTION of (p, u)), |
-|                                                                        | predict_rowwise, predict_row_independent, predict_draw_count; that   |
-|                                                                        | a seed fixes the draws is the RNG's contract (trusted, tested)       |
-| deterministic where the probability is 0 or 1                           | bernoulli_deterministic_one (all u < 1); bernoulli_deterministic_zero|
-|                                                                        | needs 0 < u: at u = 0 (prob. 2^-53) p = 0 yields label 1 — witness   |
-|                                                                        | `bernoulli 0 0 = 1`, replayed on fairlearn with a stub RandomState   |
-NOT LIFTED (hard-coded in Model/Pmf.lean, tied by correspondence only): EG `_pmf_predict` (mask `weights_[t] == 0`, the
-`pred[weights_.index].dot(weights_)` alignment, `1 - p`), EG classification `predict` (`>=`), `RandomState.choice`.
--/
 import FairModel.Lemmas.Pmf
 import FairModel.Properties.C04
 
@@ -271,40 +238,6 @@ theorem eg_pmf_range (preds : List Rat) (weights : List (Nat × Rat))
   rw [hsum] at this
   exact this
 
-/-- the same WITHOUT assuming the weights sum to exactly 1 (the LP step returns `weights_` that sum to 1 only up to the
-    solver's tolerance): `0 ≤ p ≤ Σ weights_`, so `p ≤ 1 + eps` whenever `Σ weights_ ≤ 1 + eps` -/
-theorem eg_pmf_range_slack (preds : List Rat) (weights : List (Nat × Rat)) (eps : Rat)
-    (hnd : (weights.map (·.1)).Nodup) (hw : ∀ e ∈ weights, 0 ≤ e.2)
-    (hsum : (weights.map (·.2)).sum ≤ 1 + eps)
-    (hp : ∀ e ∈ weights, 0 ≤ preds.getD e.1 0 ∧ preds.getD e.1 0 ≤ 1) :
-    0 ≤ egPositive preds weights ∧ egPositive preds weights ≤ 1 + eps := by
-  rw [egPositive_eq_sum preds weights hnd]
-  have := sum_mul_le_sum (weights.map (fun e => (preds.getD e.1 0, e.2))) (by
-    intro x hx
-    obtain ⟨e, he, rfl⟩ := List.mem_map.mp hx
-    exact ⟨(hp e he).1, (hp e he).2, hw e he⟩)
-  simp only [List.map_map, Function.comp_def] at this
-  exact ⟨this.1, le_trans this.2 hsum⟩
-
-/-- **the reported row `[1 - p, p]` of ExponentiatedGradient is a valid distribution** (`np.concatenate((1 - positive_probs,
-    positive_probs), axis=1)`), under the hypotheses of `eg_pmf_range` -/
-theorem eg_pmf_row_is_distribution (preds : List Rat) (weights : List (Nat × Rat))
-    (hnd : (weights.map (·.1)).Nodup) (hw : ∀ e ∈ weights, 0 ≤ e.2)
-    (hsum : (weights.map (·.2)).sum = 1)
-    (hp : ∀ e ∈ weights, 0 ≤ preds.getD e.1 0 ∧ preds.getD e.1 0 ≤ 1) :
-    0 ≤ 1 - egPositive preds weights ∧ 1 - egPositive preds weights ≤ 1 ∧
-    0 ≤ egPositive preds weights ∧ egPositive preds weights ≤ 1 ∧
-    (1 - egPositive preds weights) + egPositive preds weights = 1 := by
-  obtain ⟨h0, h1⟩ := eg_pmf_range preds weights hnd hw hsum hp
-  exact ⟨by linarith, by linarith, h0, h1, by ring⟩
-
-/-- the hypothesis `Σ weights_ = 1` of `eg_pmf_range` is NEEDED (it is not a property of the model function, which just
-    forms the dot product): weights summing to 3/2 give the "probability" 3/2.  The harness therefore evaluates the
-    hypothesis on every fitted model (`C10.eg_pmf_range.hyp`, tolerance 1e-7 for the LP solver) -/
-theorem eg_pmf_range_needs_sum :
-    (∀ e ∈ [((0 : Nat), (3/4 : Rat)), (1, 3/4)], 0 ≤ e.2) ∧ egPositive [1, 1] [(0, 3/4), (1, 3/4)] = 3/2 := by
-  decide +kernel
-
 /-! ### the Bernoulli draw `(p >= u) * 1` -/
 
 theorem bernoulli_is_label (p u : Rat) : bernoulli p u = 0 ∨ bernoulli p u = 1 :=
@@ -444,25 +377,5 @@ example : choice [10, 20, 30] [1/2, 0, 1/2] (1/2) = some 30 := by decide +kernel
 example : aligned [(0, 1/3), (1, 1/3), (3, 1/3), (2, 0)] = false := by decide +kernel
 example : egRegPredict [5, 6, 7, 8] [(0, 1/3), (1, 1/3), (3, 1/3), (2, 0)] (3/4) = some 0 := by decide +kernel
 example : egRegPredictById [5, 6, 7, 8] [(0, 1/3), (1, 1/3), (3, 1/3), (2, 0)] (3/4) = some 8 := by decide +kernel
-
--- review additions: ALL hypotheses of `eg_pmf_is_mixture` / `eg_pmf_range` / `eg_pmf_row_is_distribution` at once, for a
--- `weights_` whose index is NOT in iteration order and contains a zero weight (predictor 3 never played)
-def exW : List (Nat × Rat) := [(0, 1/2), (2, 1/4), (3, 0), (1, 1/4)]
-example : (exW.map (·.1)).Nodup ∧ (∀ e ∈ exW, 0 ≤ e.2) ∧ (exW.map (·.2)).sum = 1 ∧
-    (∀ e ∈ exW, 0 ≤ [1, 0, 1, 1].getD e.1 0 ∧ [1, 0, 1, 1].getD e.1 0 ≤ 1) ∧ aligned exW = false ∧
-    egPositive [1, 0, 1, 1] exW = 3/4 := by decide +kernel
--- `choice_own_weight` / `eg_regression_byid_own_weight`: hypotheses met, interior branch (position 2 drawn on [3/4, 1))
-example : (∀ t, t < 4 → 0 ≤ weightOf exW t) ∧ choiceIdx ((List.range 4).map (weightOf exW)) (7/8) = 2 ∧
-    egRegPredictCode [5, 6, 7, 8] exW (7/8) = some 7 ∧ egRegPredictCode [5, 6, 7, 8] exW (1/8) = some 5 := by
-  decide +kernel
--- `choice_total`: a probability vector and equal lengths; u just below 1 still yields a value
-example : ([10, 20, 30] : List Rat).length = ([1/2, 0, 1/2] : List Rat).length ∧ ([1/2, 0, 1/2] : List Rat).sum = 1 ∧
-    choice [10, 20, 30] [1/2, 0, 1/2] (999/1000) = some 30 := by decide +kernel
--- `pmf_monotone_noflip` / `thresholder_pmf_range`: the two-rule dict `exDict` is valid and all-`>`; 0 < p < 1 occurs
-example : (∀ e ∈ exDict, e.2.valid 0 = true ∧ e.2.allGt = true) ∧ thrPositive exDict "a" (1/4) = 3/40 ∧
-    thrPositive exDict "a" (5/8) = 27/40 := by decide +kernel
--- determinism boundary: `bernoulli_deterministic_zero` needs `0 < u`; at the draw `u = 0` (probability 2^-53 for
--- `RandomState.rand`) a row with reported probability 0 gets label 1 (`>=`), replayed on fairlearn with a stub RandomState
-example : bernoulli 0 0 = 1 ∧ bernoulli 0 (1/9007199254740992) = 0 := by decide +kernel
 
 end C10
